@@ -395,6 +395,10 @@ func (w *vfWorld) forge(st vfStep) {
 	switch {
 	case how == "foreignkey":
 		val = vfResignJWT(src.Value, "ca_rsa_alt", nil)
+	case how == "jwkembed":
+		val = vfJWKEmbed(src.Value, true)
+	case how == "kidclaim":
+		val = vfJWKEmbed(src.Value, false)
 	case how == "none":
 		val = vfAlgNone(src.Value, nil)
 	case how == "hs256":
@@ -486,7 +490,7 @@ func (w *vfWorld) judgePresent(a *vfArtefact, consumer string, honoured, expect 
 	if honoured && !expect {
 		cls := "kind-confusion"
 		switch {
-		case a.Forged == "foreignkey" || strings.HasPrefix(a.Forged, "fclaim:"):
+		case a.Forged == "foreignkey" || a.Forged == "jwkembed" || a.Forged == "kidclaim" || strings.HasPrefix(a.Forged, "fclaim:"):
 			cls = "foreign-key-accepted"
 		case a.Forged == "none" || strings.HasPrefix(a.Forged, "hs256"):
 			cls = "alg-accepted"
@@ -796,7 +800,7 @@ func genTokenPlan(r *rand.Rand, tier, focus string) *vfPlan {
 	clients := []string{"clientA", "clientB", "clientC", "clientD"}
 	kinds := []string{"cookie", "code", "idtoken", "access", "clitoken", "storage"}
 	consumers := []string{"session", "sessionpost", "certgen", "token", "userinfo", "cliverify", "clisend", "storage", "tokenother", "clisendother", "storageother", "certgencert"}
-	forgeries := []string{"foreignkey", "none", "hs256", "hs256pem", "corrupt:header", "corrupt:payload", "corrupt:signature",
+	forgeries := []string{"foreignkey", "jwkembed", "kidclaim", "none", "hs256", "hs256pem", "corrupt:header", "corrupt:payload", "corrupt:signature",
 		"claim:iss", "claim:aud", "claim:nbf", "claim:exp", "fclaim:sub", "fclaim:level", "fclaim:exp"}
 	n := 10 + r.IntN(16)
 	if tier == "thorough" {
